@@ -15,7 +15,7 @@ RULE = ("random populated topologies (3..12 real nodes, >=2 nodes on most levels
         "frame, ACK packets, relayed frames). Non-trivial: a multicast frame crossed the air and "
         "quiescence was reached; distinct = (sender class, level argument, length class, relay "
         "pattern, multicast-off pattern, profile class).")
-RULE += (" Later rounds added: multicast_level overrides, multicasts arriving while a member waits for a NETWORK_ACK, the reverse (a member's failing unicast starts right after the multicast reached its radio), a relay whose application stops reading, a multicast after a fragmented unicast that failed outright, nodes whose address was assigned more than once (the same again, or another level first) before the traffic, a multicast to the level of a node that has just completed an acknowledged unicast over two or more hops.")
+RULE += (" Later rounds added: multicast_level overrides, multicasts arriving while a member waits for a NETWORK_ACK, the reverse (a member's failing unicast starts right after the multicast reached its radio), a relay whose application stops reading, a multicast after a fragmented unicast that failed outright, nodes whose address was assigned more than once (the same again, or another level first) before the traffic, a multicast to the level of a node that has just completed an acknowledged unicast over two or more hops, nodes that switched multicasting off and on again at run time.")
 REQUIRED = {"level_members_once": 150, "other_levels_clean": 150, "unacknowledged": 150,
             "relay_rebroadcast": 20, "multicast_off_not_listening": 30}
 BUDGET = {"quick": 480, "thorough": 900}
@@ -166,8 +166,12 @@ def gen_cases(ctx):
         # a different level first) before any traffic
         readdr = {str(a): rng2.choice(["same", "same2", 0o4321, 0o5, 0o33, 0]) for a in nodes
                   if i % 3 == 1 and rng2.random() < 0.5}
+        # multicasting switched off at run time and on again; the level address is re-opened the
+        # documented ways: assigning multicast_level (its present value) or node_address again
+        mctoggle = {str(a): rng2.choice(["level", "level_after_set_while_off", "addr"]) for a in nodes
+                    if i % 4 == 2 and a not in mc_off and str(a) not in mlevel and rng2.random() < 0.5}
         yield {"nodes": nodes, "relay": relay1, "mc_off": mc_off, "msgs": msgs, "lazy": lazy,
-               "mlevel": mlevel, "readdr": readdr, "busy": busy, "stall": stall, "prefail": prefail,
+               "mlevel": mlevel, "readdr": readdr, "mctoggle": mctoggle, "busy": busy, "stall": stall, "prefail": prefail,
                "profiles": {str(a): N.rand_profile(rng, base=base) for a in nodes},
                "seed": rng.getrandbits(30)}
 
@@ -188,6 +192,19 @@ def _run(ctx, case, net):
             if via is not None:
                 for x in {"same": [a], "same2": [a, a]}.get(via, [via, a]):
                     o.node_address = x
+            how = case.get("mctoggle", {}).get(str(a))
+            if how:
+                o.allow_multicast = False
+                if how == "level_after_set_while_off":
+                    o.multicast_level = net_ref.level(a)
+                else:
+                    o.node_address = a
+                o.allow_multicast = True
+                if how == "addr":
+                    o.node_address = a
+                else:
+                    o.multicast_level = net_ref.level(a)
+                ctx.count("nodes_with_multicasting_switched_off_and_on")
             if a in case["mc_off"]:
                 o.allow_multicast = False
                 o.node_address = a
